@@ -170,12 +170,18 @@ def e2_oracle(scn, res):
     out = []
     if res["verdict"] != "done":
         return out   # deadlock / livelock / step cap are reported by the base oracle
+    named = False
     for n, rc in res["roots"].items():
         err = res["stderr"].get(n, "")
         if rc == 0:
             out.append(({"kind": "cycle-exit-0", "scenario": scn["name"]}, {"stderr": err[-500:]}))
-        elif rc != 101 and not CYC.search(err):
-            out.append(({"kind": "cycle-not-identified", "scenario": scn["name"], "rc": rc}, {"stderr": err[-700:]}))
+        elif CYC.search(err):
+            named = True
+    # With several invocations the one that runs into the cycle names it; another one may merely find that a target it
+    # asked for has failed in the first one's run (non-zero, without having met a cycle itself).
+    if not named and not any(rc == 101 for rc in res["roots"].values()):
+        out.append(({"kind": "cycle-not-identified", "scenario": scn["name"], "rc": sorted(res["roots"].values())[0]},
+                    {"stderr": {n: e[-400:] for n, e in res["stderr"].items()}}))
     if "sib" in scn["world"].targets and "-k" in scn["roots"][0]["argv"]:
         if res["files"].get("sib") != "sib(0)\n":
             out.append(({"kind": "sibling-not-built-under-keep-going", "scenario": scn["name"]}, {"files": res["files"].get("sib")}))
